@@ -6,7 +6,7 @@ From NDN Require Import Base.Prelude Model.TlvVar Model.Name Model.Tlv Model.Pac
 Local Open Scope N_scope.
 
 Definition tuple_orig : list err := [EDecode; EType; EValue; EStruct].
-Definition cfg_orig : rcfg := RCfg tuple_orig tuple_orig tuple_orig tuple_orig false [] None.
+Definition cfg_orig : rcfg := RCfg tuple_orig tuple_orig tuple_orig tuple_orig 0 [] None.
 
 (* IndexError from the decoders was not caught: a Data /a with one trailing byte (UDP datagram) ... *)
 Theorem C06_receive_total_refuted_index :
